@@ -178,6 +178,12 @@ ASSUME_HISTORY = [
     "os.urandom draws are pairwise distinct (fresh_oracle); random.choice/randrange may return anything in range",
     "times are dyadic rationals (multiples of 1/8 s) on which float arithmetic is exact",
     "correspondence model<->code is differential testing (finite, seed-dependent), not proof",
+    "the harness's own simulations are re-validated per run: a simulated crash (exception out of commit, rollback, reopen) against a real "
+    "os._exit kill in a forked child (validity.py, part of C10), direct onOpen/onMessage/onClose calls against real loopback WebSocket "
+    "connections (loopback.py, part of C17 and C02); one difference is known: when an exception escapes a handler autobahn aborts the "
+    "transport, so the ack written just before may not reach the client",
+    "database-lock faults (faults.py: a real second sqlite connection holding a SHARED or RESERVED lock) have no counterpart in the model: "
+    "those histories are monitor-only",
 ]
 
 
